@@ -11,6 +11,104 @@ b2 = np.array([0.5, -1.0])
 b3 = np.array([0.5, -1.0, 0.0])
 
 
+EXP_ATOMS = ['exp', 'log', 'pexp', 'plog', 'softplus', 'entropy', 'expsum', 'sumexp', 'sumlog']
+
+
+def exp_desc(a, atom, form):
+    """Exponential-cone atoms (cone-term abstraction on the oracle side)."""
+    x = a.dvar(2)
+    u = a.dvar(())
+    a.st(a.ge(x, -1.0))
+    a.st(a.le(x, 1.0))
+    a.st(a.ge(u, -20.0))
+    a.st(a.le(u, 20.0))
+    lin = a.sum(np.array([1.0, -0.5]) * x)
+    if atom == 'exp':
+        h, curv = a.exp(2.0 * x - b2), 1
+    elif atom == 'expsum':
+        h, curv = a.exp(x[0:1] - x[1:2] + 0.5), 1
+    elif atom == 'sumexp':
+        h, curv = a.sumexp(2.0 * x - b2), 1
+    elif atom == 'sumlog':
+        h, curv = a.sumlog(x + 2.5), -1
+    elif atom == 'log':
+        h, curv = a.log(x + 2.5), -1
+    elif atom == 'pexp':
+        h, curv = a.pexp(x[0:1] - 0.5, x[1:2] + 2.0), 1
+    elif atom == 'plog':
+        h, curv = a.plog(x[0:1] + 2.0, x[1:2] + 1.5), -1
+    elif atom == 'softplus':
+        h, curv = a.softplus(x - b2), 1
+    else:
+        h, curv = a.entropy(x + 1.5), -1
+    if curv > 0:
+        if form == 'le':
+            a.st(a.le(h, u))
+            a.min(u + lin * 0.25)
+        elif form == 'le_scaled':
+            a.st(a.le(2.0 * h + lin, u))      # 1/2 is exact in binary (1/2.5 is not: the abstraction needs equal terms)
+            a.min(u)
+        elif form == 'obj':
+            if atom == 'sumexp':
+                a.min(h - lin)
+            else:
+                a.st(a.le(h, u))
+                a.min(u - lin)
+        elif form == 'le_affine_rhs':
+            a.st(a.le(h - lin, u + 1.0))
+            a.min(u)
+        else:
+            a.st(a.ge(u, h))
+            a.min(u + lin * 0.25)
+    else:
+        if form == 'le':
+            a.st(a.ge(h, u))
+            a.max(u + lin * 0.25)
+        elif form == 'le_scaled':
+            a.st(a.ge(2.0 * h + lin, u))
+            a.max(u)
+        elif form == 'obj':
+            if atom in ('entropy', 'sumlog'):
+                a.max(h + lin)
+            else:
+                a.st(a.ge(h, u))
+                a.max(u - lin)
+        elif form == 'le_affine_rhs':
+            a.st(a.ge(h - lin, u - 1.0))
+            a.max(u)
+        else:
+            a.st(a.le(u, h))
+            a.max(u + lin * 0.25)
+
+
+def bcast_desc(a, base, form):
+    """Element-wise atoms where BOTH the atom and the other side are expanded by broadcasting:
+    atom(x) with x of shape (2,1) against y of shape (2,) / a (1,2) constant / a (2,2) variable."""
+    x = a.dvar((2, 1))
+    y = a.dvar(2)
+    t = a.dvar((2, 2))
+    a.st(a.ge(x, -1.0))
+    a.st(a.le(x, 1.5))
+    a.st(a.le(y, 30.0))
+    a.st(a.le(t, 30.0))
+    a.st(a.ge(y, -30.0))
+    a.st(a.ge(t, -30.0))
+    arg = x + 2.0 if base == 'log' else 2.0 * x - 0.5
+    f = {'abs': a.abs, 'square': a.square, 'power3': (lambda e: a.power(e, 3)), 'exp': a.exp, 'log': a.log}[base]
+    h = f(arg)
+    concave = base == 'log'
+    c = np.array([[0.5, -1.0]])
+    if form == 'bcast_var':
+        a.st(a.ge(h, y) if concave else a.le(h, y))
+        (a.max if concave else a.min)(a.sum(y) + 0.25 * a.sum(x))
+    elif form == 'bcast_const':
+        a.st(a.ge(h + c, t) if concave else a.le(h + c, t))
+        (a.max if concave else a.min)(a.sum(t))
+    else:
+        a.st(a.ge(2.0 * h + c, t) if concave else a.le(2.0 * h + c, t))
+        (a.max if concave else a.min)(a.sum(t) - 0.5 * a.sum(x))
+
+
 def vec_atoms():
     """name -> (builder(a, e) -> atom handle, curvature, arg kind, kwargs)"""
     return {
@@ -36,13 +134,21 @@ def core_specs():
         for form in ['le', 'obj', 'le_scaled']:
             S.append(dict(name='power%d_%d-%s' % (pq[0], pq[1], form), atom='power', pq=list(pq), form=form))
     for ab in [(3, 1), (3, 2), (4, 1), (5, 2)]:
-        for form in ['le', 'obj']:
+        for form in ['le', 'obj', 'le_scaled', 'obj_scaled']:
+            if form == 'obj_scaled' and ab[1] != 1:
+                continue      # fractional degree + scaling: the definitional root encoding is beyond z3 (stretch)
             S.append(dict(name='pnorm%d_%d-%s' % (ab[0], ab[1], form), atom='pnorm', ab=list(ab), form=form))
     for beta in [[1, 1], [1, 2], [2, 1, 1], [1, 3, 2], [1, 1, 1]]:
-        for form in ['ge', 'obj']:
+        for form in ['ge', 'obj', 'ge_scaled']:
             S.append(dict(name='gmean%s-%s' % (''.join(map(str, beta)), form), atom='gmean', beta=beta, form=form))
     for form in ['le', 'obj', 'ge_min', 'obj_min']:
         S.append(dict(name='maxof-%s' % form, atom='maxof', form=form))
+    for atom in EXP_ATOMS:
+        for form in ['le', 'le_scaled', 'obj', 'le_affine_rhs', 'le_from_right']:
+            S.append(dict(name='%s-%s' % (atom, form), atom=atom, form=form))
+    for atom in ['abs', 'square', 'power3', 'exp', 'log']:
+        for form in ['bcast_var', 'bcast_const', 'bcast_scaled']:
+            S.append(dict(name='%s-%s' % (atom, form), atom='bcast', base=atom, form=form))
     S.append(dict(name='rsocone', atom='rsocone', form='cons'))
     S.append(dict(name='multi-atom', atom='multi', form='cons'))
     S.append(dict(name='int-abs', atom='intabs', form='cons'))
@@ -54,7 +160,11 @@ def desc_from_spec(spec):
 
     def desc(a):
         VA = vec_atoms()
-        if atom in VA:
+        if atom == 'bcast':
+            bcast_desc(a, spec['base'], form)
+        elif atom in EXP_ATOMS:
+            exp_desc(a, atom, form)
+        elif atom in VA:
             f, curv, kind = VA[atom]
             x = a.dvar(2)
             u = a.dvar(())
@@ -148,6 +258,11 @@ def desc_from_spec(spec):
             if form == 'le':
                 a.st(a.le(h, u))
                 a.min(u)
+            elif form == 'le_scaled':
+                a.st(a.le(2.0 * h - 1.0, u))
+                a.min(u)
+            elif form == 'obj_scaled':
+                a.min(0.5 * h + a.sum(np.array([0.5, -0.5]) * x))
             else:
                 a.min(h + a.sum(np.array([0.5, -0.5]) * x))
         elif atom == 'gmean':
@@ -161,6 +276,9 @@ def desc_from_spec(spec):
             h = a.gmean(x, beta)
             if form == 'ge':
                 a.st(a.ge(h, u))
+                a.max(u - 0.25 * a.sum(x))
+            elif form == 'ge_scaled':
+                a.st(a.ge(2.0 * h - 0.5, u))
                 a.max(u - 0.25 * a.sum(x))
             else:
                 a.max(h - 0.25 * a.sum(x))
